@@ -28,7 +28,13 @@ pub fn c07(x: &str, prefix_len: Option<usize>, cfg: &Cfg, ctx: &mut Ctx) {
     // not judged. Conditional directives *inside* an asm block leave no such doubt.
     let mask = verbatim_mask_definite(x, &tx);
     let cond_outside_asm = tx.iter().any(|t| matches!(t.kind, Kind::Conditional(_)) && !t.asm);
-    let cond_inside_asm = tx.iter().any(|t| matches!(t.kind, Kind::Conditional(_)) && t.asm);
+    // a conditional directive that is the first or the last token of its asm source line (a group in
+    // the middle of an instruction line is kept in place by the conditional-directive consolidation)
+    let cond_inside_asm = (0..tx.len()).any(|i| {
+        matches!(tx[i].kind, Kind::Conditional(_))
+            && tx[i].asm
+            && (tx[i].lead(x).contains('\n') || tx.get(i + 1).map_or(true, |n| n.lead(x).contains('\n') || !n.asm))
+    });
     let lone_cr = o::lone_cr_after_line_comment(x);
     let mut verbatim_tokens = 0;
     for i in 0..tx.len() {
@@ -43,7 +49,7 @@ pub fn c07(x: &str, prefix_len: Option<usize>, cfg: &Cfg, ctx: &mut Ctx) {
                     // the reconstructor's last-resort line break after a line comment (the C08 finding)
                     "region-changed:line-comment-ended-by-lone-cr"
                 } else if a.asm && cond_inside_asm {
-                    "asm-line-changed:conditional-directive-inside-asm-block"
+                    "asm-line-changed:conditional-directive-at-the-edge-of-an-asm-line"
                 } else if a.asm {
                     "asm-line-changed"
                 } else {
